@@ -274,6 +274,13 @@ func TestC12(t *testing.T) {
 			}
 		}
 	}
+	// udp_preference_limit = 0: every request is larger, TCP is tried first and UDP is still permitted
+	for _, tb := range behs {
+		for _, ub := range behs {
+			cases = append(cases, cse{[]string{tb}, []string{ub}, 0})
+		}
+	}
+	cases = append(cases, cse{[]string{"r", "c"}, []string{"r", "a"}, 0}, cse{[]string{"c", "r", "r"}, []string{"c", "c", "a"}, 0}, cse{[]string{"r", "a"}, []string{"a", "r"}, 0})
 	countSilent := func(c cse) int {
 		n := 0
 		for _, b := range append(append([]string{}, c.tcp...), c.udp...) {
@@ -473,6 +480,8 @@ func sigOf(tcp, udp []string, limit int) string {
 	lim := "lt"
 	if limit == 1 {
 		lim = "1"
+	} else if limit == 0 {
+		lim = "0"
 	} else if limit > 1000 {
 		lim = "gt"
 	}
